@@ -80,18 +80,18 @@ Proof. exact extract_linux_first. Qed.
 
 (** tie to the source: connState.handle recovers and answers EFAULT; every LookupFID is released by a deferred DecRef *)
 Theorem C15_source_recover :
-  find (fun e => String.eqb (fst e) "connState.handle") handler_traces =
+  find (fun e => String.eqb (fst e) "connState.handle") handler_traces_alpha =
   Some ("connState.handle"%string,
-        ["defer:func"; "if:r == nil"; "recover"; "seterr:r:EFAULT"; "endif"; "enddefer";
-         "if:ok"; "delegate:handler.handle(cs)"; "else"; "seterr:r:ENOSYS"; "endif"; "return:"]%string).
+        ["defer:func"; "if:_v2 == nil"; "recover"; "seterr:_v2:EFAULT"; "endif"; "enddefer";
+         "if:_v5"; "delegate:_v4.handle(_v0)"; "else"; "seterr:_v2:ENOSYS"; "endif"; "return:"]%string).
 Proof. exact source_recover. Qed.
-Theorem C15_source_lookups_deferred : forallb (fun e => lookups_deferred (snd e)) handler_traces = true.
+Theorem C15_source_lookups_deferred : forallb (fun e => lookups_deferred (snd e)) handler_traces_alpha = true.
 Proof. exact HandlerGen_lookups_deferred. Qed.
 
 (** locks: every Lock/RLock site of handlers.go, path_tree.go and the fid-table functions of server.go
     is released by a deferred unlock, or has no call that can fail between Lock and Unlock; so a
     request that ends in a panic (any backend call, any index) holds nothing afterwards *)
-Theorem C15_locks_released : locks_released = true /\ lock_sites = lock_sites_expected.
+Theorem C15_locks_released : locks_released = true /\ lock_sites_alpha = lock_sites_expected.
 Proof. split; [exact HandlerGen_locks_released|exact HandlerGen_lock_sites]. Qed.
 
 (** satisfiable: a panic in the second component of a walk *)
